@@ -105,3 +105,19 @@ def as_time(t, mode):
 def time_key(t, mode):
     """the ordering the property talks about: the stamps themselves"""
     return t % 10.0 if mode == 2 else t
+
+
+def round_position(draw, par, surface):
+    """a position whose CPR fields (for a frame of parity `par`) are round binary numbers - multiples of 4096, zero included:
+    1/32 fractions of a latitude and of a longitude zone"""
+    from ref import cpr
+    base = 90.0 if surface else 360.0
+    frac = st.one_of(st.sampled_from([0, 0, 0, 16, 1, 31]), gen.uint(0, 31))
+    dlat = base / (60 - par)
+    jmax = int(86.0 / dlat)
+    lat = dlat * (draw(gen.uint(-jmax, jmax)) + draw(frac) / 32.0)
+    lat = max(-86.0, min(86.0, lat))
+    dlon = base / max(cpr.NL(lat) - par, 1)
+    kmax = int(179.0 / dlon)
+    lon = dlon * (draw(gen.uint(-kmax, kmax)) + draw(frac) / 32.0)
+    return lat, lon
